@@ -253,10 +253,18 @@ class E3Check:
     # ---- parent entry points
     def run(self, tier, seed, budget=None):
         rep = core.Report(self.prop, tier, seed)
+        rc = self.campaign(rep, tier, seed, budget)
+        if rc is not None:
+            return rc
+        return rep.finish()
+
+    def campaign(self, rep, tier, seed, budget=None, with_corpus=True, with_pre_run=True):
+        """the whole generated campaign of this check into `rep` (coverage, violations, notes) without finishing the report, so that a check made of
+        several E3 parts can merge them into one evidence file. Returns 2 when nothing could be executed, else None."""
         for v in ("hook", "hook-asan") if self.asan_share else ("hook",):
             self.build(v)
-        ncorpus = self.corpus_tier(rep)
-        extra = self.pre_run(rep, tier, seed) or {}
+        ncorpus = self.corpus_tier(rep) if with_corpus else 0
+        extra = (self.pre_run(rep, tier, seed) if with_pre_run else None) or {}
         nworkers = self.workers_quick if tier == "quick" else self.workers_thorough
         nworkers = max(1, min(nworkers, core.ncpu() - 1))
         budget_s = budget if budget else (self.quick_budget_s if tier == "quick" else self.thorough_budget_s)
@@ -325,6 +333,7 @@ class E3Check:
                 continue
             b = json.load(open(fp))
             b["property"] = self.prop
+            b["module"] = modname
             v0 = b["verdicts"][0]
             key = json.dumps(v0.get("signature", {}), sort_keys=True) + v0["what"][:60]
             if key in seen_sig:
@@ -346,7 +355,7 @@ class E3Check:
             print("CHECK-ERROR property=%s no case was executed: %s" % (self.prop, " | ".join(errors)[:2000]))
             rep.finish()
             return 2
-        return rep.finish()
+        return None
 
     def replay_program(self, runner, text, active_cpus, runs, known):
         """run a saved program `runs` times; returns list of (run index, verdict) for fresh violations"""
